@@ -33,6 +33,9 @@ pub struct XCloud {
     pub tweaks: Vec<Tweak>,
     pub name: Option<String>,
     pub finalize: bool,
+    /// call PointCloudWriter::finalize a second time
+    #[serde(default)]
+    pub finalize_twice: bool,
 }
 
 #[derive(Clone, Debug, Serialize, Deserialize)]
@@ -56,6 +59,18 @@ pub struct Case {
     pub guid: String,
     pub ops: Vec<XOp>,
     pub end: XEnd,
+    /// calls made after a successful top-level finalize
+    #[serde(default)]
+    pub after: Vec<After>,
+}
+
+#[derive(Clone, Debug, Serialize, Deserialize)]
+pub enum After {
+    Finalize,
+    Blob(BlobSpec),
+    /// a small point cloud: x / y / z doubles, this many points
+    Cloud(u8),
+    Ext,
 }
 
 const BAD_NAMES: [&str; 14] = ["", "xmlfoo", "XMLns", "a b", "\u{e4}\u{f6}", "a.b", "a:b", "0129", "-_-", "9lives", "-dash", "ok_name", "Also-OK_1", "<x>"];
@@ -186,7 +201,7 @@ fn xcloud(s: &mut Src, prefixes: &[String]) -> XCloud {
             }
         })
         .collect();
-    XCloud { guid: if s.chance(1, 10) { String::new() } else { gen::guid(s) }, proto, seed: s.u64(), tweaks, name: if s.flag() { Some(gen::xml_string(s)) } else { None }, finalize: s.chance(5, 6) }
+    XCloud { guid: if s.chance(1, 10) { String::new() } else { gen::guid(s) }, proto, seed: s.u64(), tweaks, name: if s.flag() { Some(gen::xml_string(s)) } else { None }, finalize: s.chance(5, 6), finalize_twice: s.chance(1, 10) }
 }
 
 /// The point handed to add_point number i, and whether it must be rejected.
@@ -367,7 +382,17 @@ fn run_case(case: &Case, v: &mut Verdict, current: &mut String) -> Result<(), St
                 if c.finalize {
                     *current = "pointcloud.finalize".into();
                     match pw.finalize() {
-                        Ok(()) => acc.clouds.push((c.clone(), kept)),
+                        Ok(()) => {
+                            acc.clouds.push((c.clone(), kept));
+                            if c.finalize_twice {
+                                // must fail, or succeed without registering the cloud a second time (read-back counts the clouds)
+                                *current = "pointcloud.finalize (second call)".into();
+                                v.nt("sub_writer_finalized_twice");
+                                if pw.finalize().is_err() {
+                                    any_rejected = true;
+                                }
+                            }
+                        }
                         Err(_) => any_rejected = true,
                     }
                 } else {
@@ -388,11 +413,69 @@ fn run_case(case: &Case, v: &mut Verdict, current: &mut String) -> Result<(), St
         }
         XEnd::Drop => return Ok(()),
     };
-    drop(w);
     if fin.is_err() {
         v.label("finalize_rejected");
         return Ok(());
     }
+    // calls after a successful top-level finalize: each must fail and leave the file alone, or succeed for real -
+    // what was accepted up to the last successful top-level finalize must read back
+    if !case.after.is_empty() {
+        v.nt("calls_after_a_successful_finalize");
+        let mut pending_blobs: Vec<(BlobSpec, u64, u64)> = Vec::new();
+        let mut pending_clouds: Vec<(XCloud, Vec<Vec<Val>>)> = Vec::new();
+        let mut pending_ext: Vec<(String, String)> = Vec::new();
+        for (k, a) in case.after.iter().enumerate() {
+            match a {
+                After::Finalize => {
+                    *current = "finalize (again)".into();
+                    if w.finalize().is_ok() {
+                        v.label("second_finalize_accepted");
+                        acc.blobs.append(&mut pending_blobs);
+                        acc.clouds.append(&mut pending_clouds);
+                        acc.registered.append(&mut pending_ext);
+                    }
+                }
+                After::Blob(b) => {
+                    *current = "add_blob (after finalize)".into();
+                    let data = b.bytes();
+                    let mut r: &[u8] = &data;
+                    if let Ok(bl) = w.add_blob(&mut r) {
+                        pending_blobs.push((b.clone(), bl.offset, bl.length));
+                    }
+                }
+                After::Ext => {
+                    *current = "register_extension (after finalize)".into();
+                    let name = format!("late{k}");
+                    let url = format!("urn:verif:late:{k}");
+                    if w.register_extension(Extension::new(&name, &url)).is_ok() {
+                        pending_ext.push((name, url));
+                    }
+                }
+                After::Cloud(n) => {
+                    *current = "add_pointcloud (after finalize)".into();
+                    let proto: Vec<Rec> = ["cartesianX", "cartesianY", "cartesianZ"].iter().map(|n| Rec { prefix: None, name: n.to_string(), ty: RType::Double { min: None, max: None } }).collect();
+                    let c = XCloud { guid: format!("late-{k}"), proto: proto.clone(), seed: k as u64, tweaks: vec![Tweak::None; *n as usize], name: None, finalize: true, finalize_twice: false };
+                    if let Ok(mut pw) = w.add_pointcloud(&c.guid, proto.iter().map(rec_to_e57).collect()) {
+                        let mut kept = Vec::new();
+                        let mut ok = true;
+                        for i in 0..*n as usize {
+                            let (rv, _) = point(&c, i);
+                            if pw.add_point(rv.clone()).is_ok() {
+                                kept.push(rv.iter().map(val_from_e57).collect());
+                            } else {
+                                ok = false;
+                                break;
+                            }
+                        }
+                        if ok && pw.finalize().is_ok() {
+                            pending_clouds.push((c, kept));
+                        }
+                    }
+                }
+            }
+        }
+    }
+    drop(w);
     if any_rejected {
         v.nt("rejected_calls_followed_by_successful_finalize");
     }
@@ -521,7 +604,20 @@ impl Check for C10 {
             1 => XEnd::TransformerFails,
             _ => XEnd::Drop,
         };
-        Case { guid: if s.chance(1, 12) { String::new() } else { gen::guid(s) }, ops, end }
+        let after = if matches!(end, XEnd::Finalize) && s.chance(1, 5) {
+            (0..1 + s.below(3))
+                .map(|_| match s.weighted(&[3, 2, 2, 1]) {
+                    0 => After::Finalize,
+                    1 => After::Blob(BlobSpec { len: s.below(2200) as u32, seed: s.u64() | 1, chunk: 0, xmlish: false }),
+                    2 => After::Cloud(s.below(6) as u8),
+                    _ => After::Ext,
+                })
+                .chain(std::iter::once(After::Finalize))
+                .collect()
+        } else {
+            vec![]
+        };
+        Case { guid: if s.chance(1, 12) { String::new() } else { gen::guid(s) }, ops, end, after }
     }
     fn run(case: &Case) -> Verdict {
         let mut v = Verdict::new();
